@@ -3,13 +3,23 @@ package verifharness
 // C09 Only healthy targets receive traffic, in fair rotation; probing continues at the interval.
 
 import (
+	"bufio"
+	"context"
+	"errors"
 	"fmt"
 	"math/rand/v2"
+	"net"
+	"net/http"
+	"os"
 	"sort"
 	"strings"
+	"sync"
+	"syscall"
 	"testing"
 	"testing/synctest"
 	"time"
+
+	"github.com/basecamp/kamal-proxy/internal/server"
 )
 
 const (
@@ -178,6 +188,13 @@ func TestC09(t *testing.T) {
 			continue
 		}
 		synctest.Test(t, func(t *testing.T) { c09Restart(t, run, k, desc) })
+	}
+	for k := 0; k < run.N(40, 2000); k++ {
+		sc := c09GoneGen(run.Rand(n+3000+k), k)
+		if !run.Mine(n+3000+k, sc) {
+			continue
+		}
+		synctest.Test(t, func(t *testing.T) { c09Gone(t, run, sc) })
 	}
 }
 
@@ -725,4 +742,478 @@ func c09Run(t *testing.T, run *Run, sc c09Scenario) {
 	}
 	run.Class(fmt.Sprintf("patterns:%s|pauses=%v", strings.Join(pats, ","), np > 0))
 	run.Sample(map[string]any{"scenario": sc, "requests": len(seq), "pauses": len(pauses)})
+}
+
+// ---------- targets that go away between probes, under traffic ----------
+//
+// A deployed target stops taking connections at an arbitrary instant *between* two probes (its
+// container died, or it is up but hangs up on everything) while clients keep sending requests, so
+// that the request path meets the dead target before the prober does; later it may come back, again
+// at an arbitrary instant. Both its probes and the proxied connections fail while it is away. The
+// other targets may at the same time fail probes while still serving (the existing families' kind).
+//
+// What the property says about it: until the first probe after the death completes the target's
+// latest probe is a success, so it may still be handed requests (those are answered 502 by the
+// proxy and are not judged); from the first failed probe on it "receives no new requests until a
+// later probe succeeds" - no connection attempt and no request may arrive at it - the remaining
+// healthy targets share the requests in strict rotation, and with none left the answer is 503.
+
+type c09Outage struct {
+	Target int           `json:"target"`
+	Die    time.Duration `json:"die"`  // offset from the deployment
+	Back   time.Duration `json:"back"` // 0: never comes back
+	Mode   string        `json:"mode"` // refuse: connections refused | close: accepted, request read, hung up
+}
+
+type c09Batch struct {
+	At time.Duration `json:"at"`
+	N  int           `json:"n"`
+}
+
+type c09GoneScenario struct {
+	Idx     int           `json:"idx"`
+	Kind    string        `json:"kind"`
+	Targets []c09Target   `json:"targets"` // probe scripts of targets that stay up: ok | flap | failwin
+	Outages []c09Outage   `json:"outages"`
+	Period  time.Duration `json:"client_period"`
+	Batches []c09Batch    `json:"batches"`
+	Horizon int           `json:"horizon_intervals"`
+}
+
+func c09GoneGen(rng *rand.Rand, idx int) c09GoneScenario {
+	sc := c09GoneScenario{Idx: idx, Kind: "targets-going-away-between-probes-under-traffic", Horizon: 10 + rng.IntN(11)}
+	sc.Period = time.Duration(pick(rng, []int{40, 70, 110, 170, 230})) * time.Millisecond
+	nt := 1 + rng.IntN(4)
+	horizon := time.Duration(sc.Horizon) * c09Interval
+	for i := 0; i < nt; i++ {
+		tg := c09Target{Name: fmt.Sprintf("gone%d-t%d:80", idx%5, i), Pattern: "ok"}
+		switch rng.IntN(8) {
+		case 0:
+			tg.Pattern, tg.A = "flap", 1+rng.IntN(5)
+		case 1:
+			tg.Pattern, tg.A = "failwin", 1+rng.IntN(sc.Horizon-4)
+			tg.B = tg.A + 1 + rng.IntN(6)
+		}
+		sc.Targets = append(sc.Targets, tg)
+		if i > 0 && rng.IntN(5) < 2 {
+			continue // this one never goes away
+		}
+		// one to three outages, one after the other, at instants anywhere inside the probe intervals
+		at := c09Interval
+		for o := 0; o < 1+rng.IntN(3); o++ {
+			die := at + time.Duration(rng.IntN(int(5*c09Interval/time.Millisecond)))*time.Millisecond
+			if die > horizon-3*c09Interval {
+				break
+			}
+			out := c09Outage{Target: i, Die: die, Mode: pick(rng, []string{"refuse", "refuse", "close"})}
+			if rng.IntN(5) > 0 {
+				// short ones end before any probe has seen them, long ones span several probes
+				out.Back = die + time.Duration(200+rng.IntN(5000))*time.Millisecond
+			}
+			sc.Outages = append(sc.Outages, out)
+			if out.Back == 0 {
+				break
+			}
+			at = out.Back + time.Duration(1+rng.IntN(3000))*time.Millisecond
+		}
+	}
+	if rng.IntN(4) == 0 && nt > 1 {
+		// every target goes away within the same interval and stays away for a while: the last
+		// healthy one dies under traffic
+		sc.Outages = nil
+		a := time.Duration(1+rng.IntN(sc.Horizon-8)) * c09Interval
+		for i := 0; i < nt; i++ {
+			die := a + time.Duration(110+rng.IntN(780))*time.Millisecond
+			sc.Outages = append(sc.Outages, c09Outage{Target: i, Die: die, Back: die + time.Duration(1500+rng.IntN(3500))*time.Millisecond, Mode: pick(rng, []string{"refuse", "refuse", "close"})})
+		}
+	}
+	for k := 1; k < sc.Horizon; k++ {
+		if rng.IntN(3) == 0 {
+			sc.Batches = append(sc.Batches, c09Batch{At: time.Duration(k)*c09Interval + time.Duration(110+rng.IntN(780))*time.Millisecond, N: 2 + rng.IntN(15)})
+		}
+	}
+	return sc
+}
+
+type c09Addr string
+
+func (a c09Addr) Network() string { return "tcp" }
+func (a c09Addr) String() string  { return string(a) }
+
+type c09Arrival struct {
+	at   time.Duration
+	what string
+}
+
+func c09Gone(t *testing.T, run *Run, sc c09GoneScenario) {
+	w := NewWorld(t, WorldOpt{})
+	defer w.Close()
+	const svc = "svc"
+	to := DefTO
+	to.HealthCheckConfig.Interval = c09Interval
+	to.HealthCheckConfig.Timeout = c09ProbeTO
+
+	// the fake network reports a refused connection the way the real one does: a *net.OpError of
+	// the dial operation wrapping ECONNREFUSED (the shared engine's own error value is a plain one);
+	// every refused attempt is logged as an arrival at that address
+	var mu sync.Mutex
+	arrivals := map[string][]c09Arrival{} // by dial address
+	inner := w.dialProxy
+	dial := func(ctx context.Context, network, addr string) (net.Conn, error) {
+		c, err := inner(ctx, network, addr)
+		var re refusedErr
+		if err != nil && errors.As(err, &re) {
+			if !w.isDone() {
+				mu.Lock()
+				arrivals[addr] = append(arrivals[addr], c09Arrival{w.Now(), "connection attempt (refused)"})
+				mu.Unlock()
+			}
+			return nil, &net.OpError{Op: "dial", Net: network, Addr: c09Addr(addr), Err: os.NewSyscallError("connect", syscall.ECONNREFUSED)}
+		}
+		return c, err
+	}
+	server.VerifDial.Store(&dial)
+
+	var t0 time.Duration
+	var started bool
+	// mode of the outage target i is in at the offset `at` from the deployment ("" when it is up)
+	// instants of the harness: clients on ms+333us (sequential) and ms+666us (batches), targets
+	// going away and coming back on ms+500us; probes complete on the interval lattice
+	outages := make([]c09Outage, len(sc.Outages))
+	for k, o := range sc.Outages {
+		o.Die += 500 * time.Microsecond
+		if o.Back > 0 {
+			o.Back += 500 * time.Microsecond
+		}
+		outages[k] = o
+	}
+	away := func(i int, at time.Duration) string {
+		for _, o := range outages {
+			if o.Target == i && at >= o.Die && (o.Back == 0 || at < o.Back) {
+				return o.Mode
+			}
+		}
+		return ""
+	}
+	var names []string
+	fts := map[string]*FakeTarget{}
+	for i, tg := range sc.Targets {
+		i, tg := i, tg
+		script := tg.script()
+		ft := w.AddTarget(tg.Name, func(n int, at time.Duration) ProbeAct {
+			mu.Lock()
+			st, base := started, t0
+			mu.Unlock()
+			if st {
+				switch away(i, at-base) {
+				case "refuse":
+					return ProbeAct{Refuse: true}
+				case "close":
+					return ProbeAct{Close: true}
+				}
+			}
+			return script(n, at)
+		})
+		ft.Handler = func(ft *FakeTarget, c net.Conn, br *bufio.Reader, req *http.Request, body []byte) bool {
+			mu.Lock()
+			st, base := started, t0
+			mu.Unlock()
+			if st && away(i, w.Now()-base) == "close" {
+				ft.end(ft.newReq(req, body), "closed")
+				return false
+			}
+			return ft.defaultHandle(c, br, req, body)
+		}
+		fts[tg.Name] = ft
+		names = append(names, tg.Name)
+	}
+	if c := w.Deploy(svc, names, DefSO, to, 5*time.Second, time.Second); c.Err != "" {
+		run.Inconclusive("setup failed: %s", c.Err)
+		return
+	}
+	mu.Lock()
+	t0, started = w.Cmds[0].Issue, true // probes of every target start here
+	mu.Unlock()
+	for _, o := range outages {
+		o := o
+		ft := fts[sc.Targets[o.Target].Name]
+		w.At(t0+o.Die, func() {
+			if o.Mode == "refuse" {
+				ft.Kill() // open connections cut, new ones refused
+				return
+			}
+			// hangs up on everything: the connections it holds go too
+			ft.mu.Lock()
+			cs := ft.conns
+			ft.conns = nil
+			ft.mu.Unlock()
+			for _, c := range cs {
+				c.Close()
+			}
+		})
+		if o.Back > 0 && o.Mode == "refuse" {
+			w.At(t0+o.Back, func() {
+				ft.mu.Lock()
+				ft.RefuseProxy = false
+				ft.mu.Unlock()
+			})
+		}
+	}
+	end := t0 + time.Duration(sc.Horizon)*c09Interval
+	type sentRec struct {
+		id    string
+		batch int // -1: the sequential client
+	}
+	var order []sentRec
+	nseq := 0
+	for s := t0 + 200*time.Millisecond; s < end; s += sc.Period {
+		order = append(order, sentRec{fmt.Sprintf("g%d", nseq), -1})
+		nseq++
+	}
+	w.At(t0+200*time.Millisecond+OffArrival, func() {
+		for j := 0; j < nseq; j++ {
+			w.SleepUntil(t0 + 200*time.Millisecond + time.Duration(j)*sc.Period + OffArrival)
+			w.Do(Req{ID: fmt.Sprintf("g%d", j), Host: "c09.example", Path: "/g"})
+		}
+	})
+	for bi, b := range sc.Batches {
+		for j := 0; j < b.N; j++ {
+			id := fmt.Sprintf("gb%d-%d", bi, j)
+			order = append(order, sentRec{id, bi})
+			w.GoReq(t0+b.At+2*OffArrival, Req{ID: id, Host: "c09.example", Path: "/gb"})
+		}
+	}
+	w.SleepUntil(end + 100*time.Millisecond)
+	w.Wait()
+	tEnd := w.Now()
+
+	// ---------- oracle ----------
+	run.Eval()
+	fail := func(sig, format string, a ...any) {
+		run.Violate(sig, fmt.Sprintf(format, a...), sc, func() []string { return w.Trace(400) })
+	}
+	// probe completions per target (every probe of this family is answered or refused at once)
+	comp := map[string][]c09Done{}
+	for _, name := range names {
+		pl := w.Target(name).ProbeLog()
+		run.Count("probes_observed", len(pl))
+		var prevStart time.Duration
+		for i, p := range pl {
+			at := p.End
+			if !p.Ended {
+				at = p.Start + c09ProbeTO
+			}
+			comp[name] = append(comp[name], c09Done{at, p.Passed(c09ProbeTO)})
+			if i > 0 && p.Start > prevStart+c09Interval+Eps {
+				fail("cadence:gap", "probe #%d of %s started at %v, the previous one at %v (interval %v); the target goes away and comes back as the scenario says", i, name, p.Start, prevStart, c09Interval)
+				return
+			}
+			prevStart = p.Start
+		}
+		if len(pl) == 0 || tEnd-prevStart > c09Interval+c09ProbeTO+Eps {
+			fail("cadence:stopped", "target %s: last probe started at %v, scenario ended at %v", name, prevStart, tEnd)
+			return
+		}
+	}
+	healthyAt := func(name string, t time.Duration) (ok bool, tie bool) {
+		for _, d := range comp[name] {
+			if absDur(d.at-t) < Eps {
+				return false, true
+			}
+			if d.at < t {
+				ok = d.ok
+			}
+		}
+		return ok, false
+	}
+	// 1. what arrives at a target: requests it read and connection attempts it refused
+	hitBeforeProbe := false
+	for i, name := range names {
+		mu.Lock()
+		arr := append([]c09Arrival(nil), arrivals[dialAddr(name)]...)
+		mu.Unlock()
+		for _, r := range w.Target(name).ReqLog() {
+			arr = append(arr, c09Arrival{r.Recv, "request " + r.ID})
+		}
+		sort.Slice(arr, func(a, b int) bool { return arr[a].at < arr[b].at })
+		for _, a := range arr {
+			h, tie := healthyAt(name, a.at)
+			if tie {
+				continue
+			}
+			if !h {
+				fail("sent-to-unhealthy-target:target-gone", "%s arrived at %s at %v (deployed at %v), whose latest completed probe had failed; the target was %s at that moment", a.what, name, a.at, t0, map[string]string{"": "up", "refuse": "refusing connections", "close": "hanging up on every connection"}[away(i, a.at-t0)])
+				return
+			}
+			if away(i, a.at-t0) != "" {
+				hitBeforeProbe = true
+				run.Count("requests_at_a_dead_target_before_its_next_probe", 1)
+			}
+		}
+	}
+	// 2. the clients' side
+	resps := map[string]Resp{}
+	for _, r := range w.RespLog() {
+		resps[r.ID] = r
+	}
+	type obs struct {
+		target string
+		hkey   string
+		batch  int
+	}
+	var seq []obs
+	sawNone, sawWindow := false, false
+	// in the order they were sent (a batch is one instant)
+	sort.SliceStable(order, func(a, b int) bool { return resps[order[a].id].Sent < resps[order[b].id].Sent })
+	for _, s := range order {
+		r, ok := resps[s.id]
+		if !ok {
+			run.Inconclusive("no record for %s", s.id)
+			return
+		}
+		var H []string
+		tie, window := false, false
+		for i, name := range names {
+			h, ti := healthyAt(name, r.Sent)
+			tie = tie || ti
+			if h {
+				H = append(H, name)
+				if away(i, r.Sent-t0) != "" {
+					window = true // gone, and no probe has found out yet
+				}
+			}
+		}
+		switch {
+		case tie:
+			run.Count("ties_skipped", 1)
+			seq = append(seq, obs{hkey: "tie"})
+		case len(H) == 0:
+			if r.Status != 503 {
+				fail("forwarded-with-no-healthy-target:target-gone", "request %s at %v: no target's latest probe succeeded, yet status=%d target=%q", s.id, r.Sent, r.Status, r.Target)
+				return
+			}
+			sawNone = true
+			run.Count("503_when_none_healthy", 1)
+			seq = append(seq, obs{hkey: "none"})
+		case window:
+			// a target of the healthy set is gone but its latest probe is still a success: the
+			// request may have been handed to it (502); only an answer from a target that is not
+			// in the set is wrong
+			if r.Status == 200 && !contains(H, r.Target) {
+				fail("sent-to-unhealthy-target", "request %s at %v was served by %s whose latest completed probe failed (healthy: %v)", s.id, r.Sent, r.Target, H)
+				return
+			}
+			sawWindow = true
+			run.Count("unjudged_between_death_and_next_probe", 1)
+			seq = append(seq, obs{hkey: "window"})
+		default:
+			if r.Status != 200 {
+				fail(fmt.Sprintf("status-%d-with-healthy-targets:target-gone", r.Status), "request %s at %v got %d although %v have a successful latest probe and are up", s.id, r.Sent, r.Status, H)
+				return
+			}
+			if !contains(H, r.Target) {
+				fail("sent-to-unhealthy-target", "request %s at %v was served by %s whose latest completed probe failed (healthy: %v)", s.id, r.Sent, r.Target, H)
+				return
+			}
+			seq = append(seq, obs{r.Target, strings.Join(H, ","), s.batch})
+		}
+	}
+	run.Count("requests_checked", len(seq))
+	// 3. rotation: maximal runs of judged requests over a constant healthy set whose members are
+	// all up; in a run, the whole run, every batch, and every window of each stretch of the
+	// sequential client must give each member floor(n/k)..ceil(n/k)
+	spread := func(win []obs, what string) bool {
+		members := strings.Split(win[0].hkey, ",")
+		k := len(members)
+		cnt := map[string]int{}
+		for _, o := range win {
+			cnt[o.target]++
+		}
+		lo, hi := len(win)/k, (len(win)+k-1)/k
+		for _, name := range members {
+			if cnt[name] < lo || cnt[name] > hi {
+				fail("unfair-rotation:target-gone", "%s: %d consecutive requests over healthy set {%s} gave %s %d requests (allowed %d..%d); distribution %v", what, len(win), win[0].hkey, name, cnt[name], lo, hi, cnt)
+				return false
+			}
+		}
+		return true
+	}
+	maxRun, maxK := 0, 0
+	for i := 0; i < len(seq); {
+		if seq[i].target == "" {
+			i++
+			continue
+		}
+		j := i
+		for j+1 < len(seq) && seq[j+1].target != "" && seq[j+1].hkey == seq[i].hkey {
+			j++
+		}
+		runObs := seq[i : j+1]
+		i = j + 1
+		if len(runObs) < 2 {
+			continue
+		}
+		run.Count("rotation_runs", 1)
+		members := strings.Split(runObs[0].hkey, ",")
+		k := len(members)
+		if !spread(runObs, "whole run") {
+			return
+		}
+		for a := 0; a < len(runObs); {
+			b := a
+			for b+1 < len(runObs) && runObs[b+1].batch == runObs[a].batch {
+				b++
+			}
+			seg := runObs[a : b+1]
+			a = b + 1
+			if seg[0].batch >= 0 {
+				if !spread(seg, "concurrent batch") {
+					return
+				}
+				continue
+			}
+			// prefix counts per member: every window [x,y) of the stretch
+			pre := make([][]int, k)
+			for m, name := range members {
+				pre[m] = make([]int, len(seg)+1)
+				for x, o := range seg {
+					pre[m][x+1] = pre[m][x]
+					if o.target == name {
+						pre[m][x+1]++
+					}
+				}
+			}
+			for x := 0; x < len(seg); x++ {
+				for y := x + 1; y <= len(seg); y++ {
+					n := y - x
+					for m := range members {
+						if c := pre[m][y] - pre[m][x]; c < n/k || c > (n+k-1)/k {
+							spread(seg[x:y], "sequential window")
+							return
+						}
+					}
+				}
+			}
+		}
+		if k > maxK || (k == maxK && len(runObs) > maxRun) {
+			maxK, maxRun = k, len(runObs)
+		}
+	}
+	modes := map[string]bool{}
+	forever := false
+	for _, o := range sc.Outages {
+		modes[o.Mode] = true
+		forever = forever || o.Back == 0
+	}
+	var ms []string
+	for m := range modes {
+		ms = append(ms, m)
+	}
+	sort.Strings(ms)
+	run.Class(fmt.Sprintf("gone|nt%d|modes=%s|hit-before-probe=%v|none-left=%v", len(names), strings.Join(ms, "+"), hitBeforeProbe, sawNone))
+	run.Class(fmt.Sprintf("gone|outages=%d|for-good=%v|requests-between-death-and-probe=%v", min(len(sc.Outages), 3), forever, sawWindow))
+	if maxK >= 2 {
+		run.Class(fmt.Sprintf("gone|longest-run:k%d/%d|run%d", maxK, len(names), min(maxRun/10*10, 30)))
+	}
+	run.Sample(map[string]any{"scenario": sc, "requests": len(seq)})
 }
